@@ -247,6 +247,17 @@ def cases(spec, ctx):
     rng = ctx.rng
     for _ in range(sc["nmerge"] // n + 1):
         yield {"kind": "merge", "a": _rand_qualifiers(rng), "b": _rand_qualifiers(rng), "seed": rng.randrange(1 << 30)}
+    # scale (own stream): qualifier dictionaries of 40..400 keys (real GenBank records carry many), a few recognised keys somewhere
+    brng = __import__("random").Random(f"C18-big:{ctx.seed}:{i}")
+    for _ in range(sc["nmerge"] // (40 * n) + 1):
+        nfill = brng.choice([40, 120, 400])
+        rec = brng.sample(CORE, brng.randint(0, 4))
+        items = [[key, _values(CORE, key, brng.randrange(1000))] for key in rec]
+        fill = [[f"x_{j}_{brng.choice(['gene', 'name', 'id', 'note', 'q'])}", [f"fv{j}"]] for j in range(nfill)]
+        yield {"kind": "extract-big", "items": items, "fill": fill, "seed": brng.randrange(1 << 30)}
+        big_a = [[f"k{j % (nfill // 2)}", [f"a{j}", f"s{j % 7}"]] for j in range(nfill // 2)]
+        big_b = [[f"k{j}", [f"b{j}", f"s{j % 7}"]] for j in range(nfill // 3, nfill)]
+        yield {"kind": "merge", "a": big_a, "b": big_b, "seed": brng.randrange(1 << 30)}
     for ambiguous, plan in ((False, sc["gbk"]), (True, sc["gbk_ambig"])):
         for nfeat, count in plan:
             for j in range(count):
@@ -468,6 +479,45 @@ def run_extract(case, ctx):
         ctx.check("extract.order-independent", ok,
                   key=("answers-differ", "rank-0-key-present" if {"feature_name", "feature_id"} & {k.lower() for k in keys} else "no-rank-0-key"),
                   **detail)
+
+
+def run_extract_big(case, ctx):
+    """A few recognised keys hidden among hundreds of unrelated ones, in several insertion orders."""
+    import random
+
+    from inscripta.biocantor.io.features import extract_feature_name_id
+
+    r = random.Random(case["seed"])
+    items = [(k, list(v)) for k, v in case["items"]]
+    fill = [(k, list(v)) for k, v in case["fill"]]
+    ctx.note(("extract-big", tuple(sorted(k for k, _ in items)), len(fill)), nontrivial=bool(items), klass="extract-big")
+    answers = {}
+    recognised = [k for k, _ in items if _rank_class(k) in ("name", "id")]
+    same_rank_twice = len({k.lower() for k in recognised}) < len(recognised)
+    own = {k for k, _ in items}
+    for t in range(6):
+        allitems = items + fill
+        r.shuffle(allitems)
+        if t == 0:
+            allitems = items + fill
+        elif t == 1:
+            allitems = fill + items[::-1]
+        q = dict(allitems)
+        got, exc = ctx.call(extract_feature_name_id, q)
+        names, ids, note_decides = ref_name_id(q)
+        ok = exc is None and isinstance(got, tuple) and len(got) == 2 and got[0] in names and got[1] in ids
+        # witness: the recognised / note keys in their insertion order (the filler keys are never recognised)
+        order = [[k, v] for k, v in allitems if k in own]
+        ctx.check("extract.priority", ok, key=("big-dictionary", "raised" if exc else "value"), q=order, n_keys=len(q),
+                  got=list(got) if exc is None else None, admissible_names=names, admissible_ids=ids, exc=repr(exc)[:200] if exc else None)
+        if exc is None:
+            answers.setdefault(got, order)
+    if not same_rank_twice:
+        detail = {}
+        if len(answers) > 1:
+            (g1, p1), (g2, p2) = list(answers.items())[:2]
+            detail = {"q1": p1, "got1": list(g1), "q2": p2, "got2": list(g2), "n_answers": len(answers)}
+        ctx.check("extract.order-independent", len(answers) <= 1, key=("big-dictionary", "answers-differ"), **detail)
 
 
 def run_extract_edge(case, ctx):
@@ -790,6 +840,8 @@ def run_gbk(case, ctx):
 
 
 def run_case(case, ctx):
+    if case["kind"] == "extract-big":
+        return run_extract_big(case, ctx)
     k = case["kind"]
     if k == "extract":
         return run_extract(case, ctx)
